@@ -21,7 +21,11 @@ Fixpoint take_runs (n : Z) (buf : list run) : list run * list run :=
            else let '(x, y) := split_run r n in ([x], y :: rest)
   end.
 
-Definition pipe_free (p : pipe) : Z := pipe_capacity - p_len p.
+(* capacity of every pipe of this world: entry (-1, cap) of the latency plan, default 65536
+   (Linux hands out smaller pipes to users over their pipe-buffer quota) *)
+Definition w_pipecap (w : world) : Z :=
+  match assocZ (-1) (w_lat w) with Some c => Z.max pipe_atomic c | None => pipe_capacity end.
+Definition pipe_free_cap (cap : Z) (p : pipe) : Z := cap - p_len p.
 Definition pipe_append (r : run) (p : pipe) : pipe :=
   {| p_buf := p_buf p ++ [r]; p_len := p_len p + run_len r |}.
 Definition pipe_take (n : Z) (p : pipe) : list run * pipe :=
@@ -92,7 +96,7 @@ Definition step_child (pid : Z) (w : world) : option world :=
                 end
               else
                 let pp := get_pipe q w in
-                let free := pipe_free pp in
+                let free := pipe_free_cap (w_pipecap w) pp in
                 if free <=? 0 then None else
                 let k := Z.min n free in
                 let off := next_woff p fd in
@@ -175,7 +179,7 @@ Fixpoint settle_fuel (fuel : nat) (w : world) : option world :=
 Fixpoint act_weight (a : act) : nat :=
   match a with
   | ASpawn s => S (fold_right (fun a n => (act_weight a + n)%nat) O s)
-  | AWrite _ n => S (Z.to_nat (n / pipe_capacity))
+  | AWrite _ n => S (Z.to_nat (n / pipe_atomic))
   | AHandle _ _ _ => 3
   | _ => 1
   end.
